@@ -122,6 +122,12 @@ int main(int argc, char **argv) {
     if (r.kind) harness_fail("cannot assemble store-first program");
     Prog p; p.name = "store-first"; p.file = r.file; p.input = ""; progs.push_back(p);
   }
+  {
+    // uses areg and breg before writing them: only correct if reset really clears both
+    auto r = ad::assemble_text("BR start\nDATA 1000\nstart\nBRZ za\nBR bad\nza\nOPR ADD\nBRZ zb\nBR bad\nzb\nOPR SUB\nBRN bad\nBRZ good\nbad\nLDAC 9\nLDBM 1\nSTAI 2\nLDAC 0\nOPR SVC\ngood\nLDAC 4\nLDBM 1\nSTAI 2\nLDAC 0\nOPR SVC\n", ad::A_FILE, ctx.scratch + "/p.bin");
+    if (r.kind) harness_fail("cannot assemble regs-from-reset program");
+    Prog p; p.name = "regs-from-reset"; p.file = r.file; p.input = ""; progs.push_back(p);
+  }
   unlink((ctx.scratch + "/p.bin").c_str());
   for (auto &p : progs) {
     auto img = refisa::parseImage(p.file); p.imageWords = img.nwords;
@@ -139,7 +145,7 @@ int main(int argc, char **argv) {
   // ---- case list
   struct Case { int prog; Plant pl; };
   std::vector<Case> cases;
-  std::vector<uint32_t> AS = {0, 1, 2, 3, 0x80000000u}, OS = {0, 2, 0xFFFFFF00u};
+  std::vector<uint32_t> AS = {0, 1, 2, 3, 0x80000000u}, OS = {0, 2, 0xFFFFFF00u};  // breg corners per program below
   auto BS = [&](const Prog &p) { return std::vector<uint32_t>{0, 2, p.finalWrites.empty() ? 1000u : p.finalWrites[0].first, 199999}; };
   bool th = ctx.thorough();
   for (int pi = 0; pi < (int)progs.size(); pi++) {
